@@ -9,6 +9,7 @@ import (
 	"fmt"
 	"sort"
 	"strings"
+	"sync"
 	"time"
 
 	"github.com/onflow/atree"
@@ -253,6 +254,7 @@ type Host struct {
 
 	Codes    map[string][]byte // address location ID -> code
 	Programs map[common.Location]*runtime.Program
+	Shared   *SharedPrograms // optional: program cache shared with other hosts (C36)
 	Signers  []common.Address
 
 	UUID       uint64
@@ -392,12 +394,55 @@ func (h *Host) GetOrLoadProgram(location runtime.Location, load func() (*runtime
 	if err := h.call(KGetProgram, fmt.Sprint(location), ""); err != nil {
 		return nil, err
 	}
+	if h.Shared != nil {
+		// only imported (address-located) programs are shared between concurrent executions
+		if _, ok := location.(common.AddressLocation); ok {
+			return h.Shared.GetOrLoad(location, load)
+		}
+	}
 	if p, ok := h.Programs[location]; ok {
 		return p, nil
 	}
 	p, err := load()
 	h.Programs[location] = p
 	return p, err
+}
+
+// SharedPrograms is a program cache shared by concurrently executing hosts (C36):
+// imported contract programs, their elaborations and lazily initialised type members
+// are then genuinely shared between goroutines. The cache itself is mutex-protected,
+// so the monitor cannot be the race.
+type SharedPrograms struct {
+	mu       sync.Mutex
+	programs map[common.Location]*sharedEntry
+}
+
+type sharedEntry struct {
+	once sync.Once
+	p    *runtime.Program
+	err  error
+}
+
+func NewSharedPrograms() *SharedPrograms {
+	return &SharedPrograms{programs: map[common.Location]*sharedEntry{}}
+}
+
+func (s *SharedPrograms) GetOrLoad(location common.Location, load func() (*runtime.Program, error)) (*runtime.Program, error) {
+	s.mu.Lock()
+	e, ok := s.programs[location]
+	if !ok {
+		e = &sharedEntry{}
+		s.programs[location] = e
+	}
+	s.mu.Unlock()
+	e.once.Do(func() { e.p, e.err = load() })
+	return e.p, e.err
+}
+
+func (s *SharedPrograms) Len() int {
+	s.mu.Lock()
+	defer s.mu.Unlock()
+	return len(s.programs)
 }
 
 func (h *Host) GetValue(owner, key []byte) ([]byte, error) {
